@@ -257,6 +257,9 @@ class Trimesh(Geometry3D):
         if self.is_empty:
             return self
 
+        # make sure nothing in the cache is from before the vertices or
+        # faces were changed as the lock skips that check
+        self._cache.verify()
         # avoid clearing the cache during operations
         with self._cache:
             # if we're cleaning remove duplicate
@@ -2741,6 +2744,9 @@ class Trimesh(Geometry3D):
         Alters `self.faces` by reversing columns, and negating
         `self.face_normals` and `self.vertex_normals`.
         """
+        # make sure cached normals are for our current vertices and
+        # faces as the lock skips that check
+        self._cache.verify()
         with self._cache:
             # reverse the faces first as the setter for face normals
             # checks the passed values against the current winding
